@@ -192,9 +192,11 @@ def classify_atoms(sx: SymX, f: Formula, path: Term | None, name_atoms: frozense
         elif t[0] == "mcall" and t[2] == EXCLUSION_PREDICATE and len(t[3]) == 1:
             if same(t[3][0]):
                 role = "EXCL"
-            else:
-                role = "EXCL?"
+            elif _part_of(loc(t[3][0]), target):
+                role = "EXCL?"  # the predicate sees only a part of the path (its name, its parent, its path below the root)
                 improper.append(t[3][0])
+            else:
+                role = "other-path"  # an exclusion test on something this rule cannot relate to the path
         elif t[0] == "cmp" and t[1] == "==":
             a, b = t[2], t[3]
             c, o = (a, b) if a[0] == "const" else (b, a)
@@ -217,7 +219,7 @@ def classify_atoms(sx: SymX, f: Formula, path: Term | None, name_atoms: frozense
     # tests about the path that this rule cannot interpret (fnmatch, suffix sets, is_file, ...)
     for key, r in list(roles.items()):
         t = sx.atoms.get(key)
-        if r == "SUFFIX":
+        if r in ("SUFFIX", "other-path"):
             continue  # understood: a file-type test that is not `suffix == '.py'`
         if r == "other" and key in name_atoms:
             roles[key] = "NAME"  # a case distinction of the name computation itself (e.g. 'the path is the root')
@@ -231,6 +233,29 @@ def classify_atoms(sx: SymX, f: Formula, path: Term | None, name_atoms: frozense
         return None
 
     return rename_atoms(f, mapping), roles, improper
+
+
+def _part_of(l: Term, target: Term | None) -> bool:
+    """The location `l` is derived from `target` by taking its name / stem / parent / a relative part."""
+    if target is None:
+        return False
+    while True:
+        if l[0] == "ABS":
+            l = l[1]
+        elif l[0] == "attr" and l[2] in ("name", "stem", "suffix", "parts", "parent"):
+            l = l[1]
+            if strip_abs(l) == target:
+                return True
+        elif l[0] in ("PARENT", "NOSUF"):
+            l = l[1]
+            if strip_abs(l) == target:
+                return True
+        elif l[0] == "REL":
+            l = l[1]
+            if strip_abs(l) == target:
+                return True
+        else:
+            return False
 
 
 def _name_truthiness_atoms(sx: SymX, f: Formula, reg: Reg) -> set[str]:
@@ -253,6 +278,11 @@ def run_registration(repo: Repo, res: Result, rule: str) -> int:
     info = analyse(repo)
     sx, parse = info.sx, info.parse
     n = 0
+    delegated = [e for e in info.trace.events if e.kind == "call" and (e.func[0] == "lib" and e.func[1] in ("os.walk", "os.fwalk", "glob.glob", "glob.iglob") or e.name in ("rglob", "walk") and e.func[0] == "method")]
+    if delegated:
+        e = delegated[0]
+        res.undecide(rule, repo.key(e.fi, stmt_of(e.node)) + " [walk]", f"the directory walk is delegated to `{show(e.result, 60) if e.result else e.name}`: which directories are entered and which entries are skipped is decided inside the library", where(e.fi, e.node))
+        return 0
     if info.problems and not info.regs:
         for p in info.problems:
             res.undecide(rule, f"{parse.relpath}::{parse.qualname}::module registration", p, where(parse, parse.node))
@@ -379,6 +409,9 @@ def run_registration(repo: Repo, res: Result, rule: str) -> int:
         seen.add(key)
         ok = l in walked
         n += 1
+        if not ok and not any(_part_of(loc(a), w) for w in walked):
+            res.undecide(rule, key + " [exclusion test on the path]", f"cannot relate `{show_loc(loc(a))}` to the visited path", where(e.fi, e.node))
+            continue
         res.add(rule, key + " [exclusion test on the path]", ok, "the exclusion predicate is applied to the visited path itself" if ok else f"the exclusion predicate is applied to `{show_loc(loc(a))}`, not to the visited path: patterns are matched against the wrong text", where(e.fi, e.node), kind="flow")
     # vacuity
     if not info.problems:
@@ -439,8 +472,8 @@ def _children_handed_on(info: ScanInfo, d: Event):
                 good.append("all entries")
             elif src[0] == "comp" and len(src[3]) == 1 and _unwrap_iterable(src[3][0][1]) == entries:
                 tgt, _it, conds = src[3][0]
-                if not [c for c in conds if c != TRUE] and src[2] == tgt:
-                    good.append("all entries")
+                if not [c for c in conds if c != TRUE]:
+                    good.append("all entries")  # possibly mapped to something that carries the entry
                 else:
                     bad.append(f"only the entries with `{' and '.join(show_formula(c) for c in conds if c != TRUE) or show(src[2], 60)}` are handed on")
             elif a[0] == "elem" and _unwrap_iterable(a[1]) == entries:
